@@ -904,6 +904,7 @@ fn ports_kind<KK: KeyKind>(ctx: &mut Ctx, scheme: Scheme, ports: &[u16]) {
     let get = |t: &Typed, i: usize| [t.tcp4, t.tcp6, t.udp4, t.udp6][i];
     let mut setter_enr: Vec<Enr<KK::K>> = (0..4).map(|_| apply_build::<KK::K>(&[], &key).expect("minimal build")).collect();
     let mut sock_enr = apply_build::<KK::K>(&[], &key).expect("minimal build");
+    let mut fixed_enr = apply_build::<KK::K>(&[BEntry::Ip4([10, 9, 9, 9]), BEntry::Ip6("fd00::1".parse::<std::net::Ipv6Addr>().unwrap().octets())], &key).expect("minimal build");
     let mut prev: [Option<u16>; 4] = [None; 4];
     let mut shared = Enr::<KK::K>::builder();
     for &p in ports {
@@ -1006,6 +1007,25 @@ fn ports_kind<KK: KeyKind>(ctx: &mut Ctx, scheme: Scheme, ports: &[u16]) {
                 }
                 Ok(Err(er)) => ctx.violate("C14", "typed-setter-refused", &format!("socket/{name}/{ktn}"), || format!("port {p}: {er:?}"), replay),
                 Err(pm) => ctx.violate("C03", "panic", &format!("socket-setter/{}", panic_sig(&pm)), || pm.clone(), replay),
+            }
+            // ---- socket setter again on a record whose address of that family NEVER changes (only the port does)
+            {
+                let fixed: std::net::SocketAddr = if i % 2 == 0 { std::net::SocketAddr::new(std::net::IpAddr::V4([10, 9, 9, 9].into()), p) } else { std::net::SocketAddr::new("fd00::1".parse().unwrap(), p) };
+                let before = light(&fixed_enr);
+                let r = guard(|| if i < 2 { fixed_enr.set_tcp_socket(fixed, &key) } else { fixed_enr.set_udp_socket(fixed, &key) });
+                if let Ok(Ok(())) = r {
+                    let o = light(&fixed_enr);
+                    ctx.count("evaluations");
+                    ctx.count("ports.socket-setter-fixed-address");
+                    // the port key of this family and transport holds p; the three other port keys are untouched
+                    let others_same = (0..4).filter(|j| *j != i).all(|j| get(&o.typed, j) == get(&before.typed, j));
+                    if o.get(rawkey) != Some(&want_raw[..]) || get(&o.typed, i) != Some(p) || !others_same {
+                        ctx.violate("C14", "typed-setter-stores-or-reads-other-value", &format!("socket-setter-fixed-address/{name}/{ktn}"), || format!("port {p}: getter {:?}, other ports untouched {others_same}", get(&o.typed, i)), replay);
+                    }
+                    check_typed(ctx, &o, &format!("socket-setter-fixed/{ktn}"), &replay);
+                } else {
+                    ctx.violate("C14", "typed-setter-refused", &format!("socket-fixed/{name}/{ktn}"), || format!("port {p}: {r:?}"), replay);
+                }
             }
             // ---- decode of a RefSig-signed record
             let mut rec = Rec::minimal(rk, 1);
